@@ -2334,6 +2334,7 @@ func TestProp(t *testing.T) {
 		runtime.GOMAXPROCS(old)
 	}
 	runCrowded(rep, env)
+	runFirstBurst(rep, env)
 	rep.Extra("wall_generic_s", time.Since(t0).Seconds())
 
 	// ---- (B) wrappers
